@@ -1064,7 +1064,16 @@ def process_models(ck, cases):
             try:
                 with warnings.catch_warnings():
                     warnings.simplefilter("ignore")
-                    axes = vc.plot_marginal_quantiles(model, sample, semantics)
+                    if ck.evaluations % 2:
+                        # axes supplied by the caller (not pyplot's current axes): variable i is drawn into axes[i]
+                        _, given = plt.subplots(1, model.n_dim + 1)
+                        given = list(given[: model.n_dim])
+                        axes = vc.plot_marginal_quantiles(model, sample, semantics, axes=given)
+                        if len(axes) != model.n_dim or any(a is not g for a, g in zip(axes, given)):
+                            bad.append(("plot_marginal_quantiles", "draws_into_given_axes", "returned axes are not the supplied ones"))
+                        ck.count("models:quantile_axes_supplied")
+                    else:
+                        axes = vc.plot_marginal_quantiles(model, sample, semantics)
                 n = len(sample)
                 osm = sts._morestats._calc_uniform_order_statistic_medians(n)
                 for dim in range(model.n_dim):
